@@ -365,6 +365,11 @@ class LinearPaths:
     to_add = []
     for l in to_disconnect:
       l2 = l.clone()
+      if l.record_type == "E":
+        self.__link_merged_gfa2_edge(l, l2, merged_name, segment_end,
+                                     is_reversed)
+        to_add.append(l2)
+        continue
       to_end = l.to_end
       from_end = l.from_end
       if to_end == segment_end:
@@ -381,4 +386,37 @@ class LinearPaths:
     for l in to_add:
       self.add_line(l)
 
-
+  def __link_merged_gfa2_edge(self, l, l2, merged_name, segment_end,
+                              is_reversed):
+    """
+    Attach the copy l2 of the GFA2 dovetail l to the merged segment:
+    besides the identifier and the orientation, the interval must be moved
+    to the corresponding end of the merged segment.
+    """
+    merged_length = self.try_get_segment(merged_name).length
+    merged_end_type = gfapy.invert(segment_end.end_type) if is_reversed \
+                      else segment_end.end_type
+    for snum in ["1", "2"]:
+      sid = l.get("sid"+snum)
+      beg = l.get("beg"+snum)
+      end = l.get("end"+snum)
+      st = l._substring_type(beg, end)[0]
+      if sid.name != segment_end.name or \
+          (st == "pfx" and segment_end.end_type != "L") or \
+          (st == "sfx" and segment_end.end_type != "R") or \
+          st not in ["pfx", "sfx"]:
+        continue
+      orient = gfapy.invert(sid.orient) if is_reversed else sid.orient
+      l2.set("sid"+snum, gfapy.OrientedLine(merged_name, orient))
+      n = gfapy.posvalue(end) - gfapy.posvalue(beg)
+      if merged_end_type == "L":
+        newbeg, newend = 0, n
+      else:
+        newbeg, newend = merged_length - n, merged_length
+      if merged_length is not None:
+        if newbeg == merged_length:
+          newbeg = gfapy.LastPos(newbeg)
+        if newend == merged_length:
+          newend = gfapy.LastPos(newend)
+      l2.set("beg"+snum, newbeg)
+      l2.set("end"+snum, newend)
